@@ -24,6 +24,8 @@ PLAN = {
         {"template": "state.verus.rs", "tier": "quick", "rlimit": 40, "min_functions": 3},
     ],
     "witnesses": [
+        # the connect clause on the real exporter over loopback (metadata changes between two connects)
+        {"match": r"(fn run_transport|on_metadata|metadata)", "name": "fn run_transport (connect)", "src": "witness_metadata_on_connect.rs", "crate": "metrics-exporter-tcp", "file": "metrics-exporter-tcp/src/lib.rs"},
         {"match": r"drive_connection", "src": "witness_would_block.rs", "crate": "metrics-exporter-tcp", "file": "metrics-exporter-tcp/src/lib.rs"},
         {"match": r"run_transport/precondition:state.decrement_clients", "src": "witness_double_decrement.rs", "crate": "metrics-exporter-tcp", "file": "metrics-exporter-tcp/src/lib.rs"},
     ],
